@@ -99,9 +99,25 @@ def gen_case(tp, tier):
                     ops[-1] = ops[-1] + ['fn']
             else:
                 t = 1 + tp.draw(max(1, nr - 1))
-                ops.append([tp.choice(['pause', 'resume', 'resume', 'stop']),
+                ops.append([tp.choice(['pause', 'resume', 'resume', 'stop',
+                                       'unext']),
                             min(t, nr - 1)])
         actors.append(ops)
+    if kind == 'ctl' and tp.draw(2) == 0:
+        # one thread keeps asking a routine for its next value while the
+        # clock plays it and another thread pauses / stops it
+        t = min(1 + tp.draw(max(1, nr - 1)), nr - 1)
+        storm = [['sleep', tp.choice([0, 0.125, 0.25, 0.5, 1.0])]]
+        for _ in range(3 + tp.draw(6)):
+            storm.append(['unext', t])
+            if tp.draw(2):
+                storm.append(['sleep', tp.choice([0, 0, 0.01, 0.125])])
+        ctl = [['sleep', storm[0][1]]]
+        for _ in range(1 + tp.draw(3)):
+            ctl.append([tp.choice(['stop', 'pause', 'resume']), t])
+            if tp.draw(2):
+                ctl.append(['sleep', tp.choice([0, 0.01, 0.125])])
+        actors += [storm, ctl]
     kn = C.gen_knobs(tp, fault_free_pm=150)
     return {'kind': kind, 'prog': prog, 'actors': actors, 'knobs': kn}
 
@@ -543,6 +559,27 @@ def run_rt(case, tape, emit):
         for op in ops:
             if op[0] == 'sleep':
                 k.sleep(op[1])
+            elif op[0] == 'unext':
+                # a plain next() from a user thread, as the library is called
+                # by its users: not wrapped in the harness' lock, it meets
+                # whatever another thread is doing to the routine
+                t = it.robj.get(op[1])
+                if t is None:
+                    continue
+                cname = prog['routines'][op[1]]['clock']
+                clk = sclk.SystemClock if cname == 'sys' else \
+                    sclk.AppClock if cname == 'app' else it.clocks.get(cname)
+                it.trace.append({'ev': 'unext', 'r': name, 'secs': 0.0,
+                                 'vals': [op[1]], 'now': k.now,
+                                 'state': '', 'top': None})
+                try:
+                    t.next((t, clk))
+                    out = 'ret'
+                except Exception as e:
+                    out = type(e).__name__
+                it.trace.append({'ev': 'unext-done', 'r': name, 'secs': 0.0,
+                                 'vals': [op[1], out], 'now': k.now,
+                                 'state': '', 'top': None})
             else:
                 with main._main_lock:        # linearisation point
                     try:
@@ -753,6 +790,25 @@ def check_ctl(case, res, viol, stats):
                 blocked[t] = want
             else:
                 blocked.pop(t, None)
+        elif ev == 'unext-done':
+            t, out = e['vals']
+            stats[f'op-unlocked-next-{out}'] = stats.get(
+                f'op-unlocked-next-{out}', 0) + 1
+            # the call began after the model's last change of t when no
+            # control operation lies between its two marks
+            j = i - 1
+            while j >= 0 and not (res['trace'][j]['ev'] == 'unext'
+                                  and res['trace'][j]['r'] == rid):
+                j -= 1
+            quiet = not any(x['ev'] in ('pause', 'resume', 'stop', 'spawn',
+                                        'spawnd')
+                            for x in res['trace'][j:i])
+            if quiet and t in blocked and out != {
+                    'Paused': 'PausedStream', 'Done': 'StopStream'}[blocked[t]]:
+                viol.add('C11-1', f'next-on-{blocked[t]}-routine',
+                         f'next() from {rid} on routine {t}, which is '
+                         f'{blocked[t]}: {out}')
+                return
         elif isinstance(rid, int):
             if rid in blocked:
                 viol.add('C11-1', f'body-ran-while-{blocked[rid]}',
